@@ -44,6 +44,7 @@ type ReplaySpec struct {
 	TestName string
 	Source   string // complete _test.go source (package clause included)
 	Expect   string // "panic" | "fail": what demonstrates the violation
+	MustContain string // text that must occur in the output for the failure to count (the obligation's file:line)
 }
 
 type propDriver struct {
@@ -132,14 +133,17 @@ type acceptedEntry struct {
 }
 
 var acceptedCache map[string][]acceptedEntry
+var acceptedOnce sync.Once
 
 func acceptedIncomplete(id, name string) bool {
-	if acceptedCache == nil {
-		acceptedCache = map[string][]acceptedEntry{}
+	// called from the solver goroutines: load once
+	acceptedOnce.Do(func() {
+		c := map[string][]acceptedEntry{}
 		if b, err := os.ReadFile(filepath.Join(verifDir(), "baseline", "accepted.json")); err == nil {
-			json.Unmarshal(b, &acceptedCache)
+			json.Unmarshal(b, &c)
 		}
-	}
+		acceptedCache = c
+	})
 	for _, a := range acceptedCache[id] {
 		if strings.Contains(name, a.Match) {
 			return true
@@ -262,6 +266,7 @@ func cmdCheck(args []string) int {
 		o *Obligation
 	}
 	var failing []failRec
+	var regressed []string
 	// name-shift ambiguity: obligations are named kind/text#ordinal; when the unchanged tree already had an undecided
 	// obligation with the same kind/text, an edit that inserts or removes a sibling can move an undecided instance
 	// onto a baseline name. Such a failure is reported only if its counter-model replays as a panic.
@@ -362,6 +367,15 @@ func cmdCheck(args []string) int {
 				continue
 			}
 			rp := writeReplay(e, run, f.r, f.o)
+			if !contractKinds[f.o.Kind] && !rp.Confirmed {
+				// a panic-freedom obligation that was discharged on the unchanged tree and is not now, but for which no
+				// input makes the real code panic at that instruction: proof regression, not evidence of a violation
+				claimed--
+				undecided++
+				regressed = append(regressed, f.o.Name+" ["+f.o.Answer+"]")
+				fmt.Printf("REGRESSED-UNCONFIRMED property=%s %s [%s] at %s (no failing input found; not reported as a violation)\n", id, f.o.Name, f.o.Answer, f.o.Pos)
+				continue
+			}
 			line := fmt.Sprintf("VIOLATION property=%s replay=%s", id, rp.Path)
 			if !rp.Confirmed {
 				line += " no-failing-input-found"
@@ -459,7 +473,7 @@ func cmdCheck(args []string) int {
 		"functions_under_contract":    run.FUC,
 		"obligations_generated_total": total,
 		"by_kind":                     kinds, "known_findings": knownList, "undecided_unclaimed": undecided, "undecided_list": undecidedList,
-		"baseline_obligations_gone": gone, "solver_wins": solverWins, "solver_seconds": solverSecs,
+		"baseline_obligations_gone": gone, "safety_obligations_regressed_without_failing_input": regressed, "solver_wins": solverWins, "solver_seconds": solverSecs,
 		"not_covered": run.NotCovered, "unsupported_notes": notes, "explanation": run.Explanation,
 		"bounded_stand_ins": run.Bounded, "abstracted_callees": run.Abstracted, "helpers_seen_through_inlining": e.Exempted,
 		"evaluations": total, "distinct_nontrivial": claimed, "rule": "one evaluation = one generated verification condition; non-trivial = claimed (in the committed baseline or generated from a contract/schema clause)",
